@@ -1,5 +1,5 @@
 (* C15 - evaluation entry points for the correspondence harness. *)
-From CfdmV Require Import Common.Base C15.Model.
+From CfdmV Require Import Common.Base C15.Model C15.Mesh.
 Open Scope Z_scope.
 
 Definition obs := result arr.
@@ -43,3 +43,63 @@ Definition check_norm_cells (c : arr * obs * obs) : bool :=
 Definition check_norm_ids (c : arr * obs * obs) : bool :=
   let '(a, o0, o1) := c in
   obs_eqb (normalise_ids 0 false a) o0 && obs_eqb (normalise_ids 1 true a) o1.
+
+(* the reader's decisions about the mesh variable (Mesh.v) against what the constructs of
+   the fields on node / edge / face show: cell type, size of the domain axis, rows of the
+   domain topology, of the cell connectivity and of the node-gathered bounds; and against
+   the (stored (node, cell), start index) pairs the array checks above were given.
+   A mesh the checks reject must yield no topology construct (the read may also raise). *)
+Definition loc_obs := option (string * Z * Z * option Z * option Z).
+
+Definition summary_obs (s : loc_summary) : string * Z * Z * option Z * option Z :=
+  (ls_cell s, ls_axis s, fst (fst (ls_dt s)),
+   option_map (fun c : Z * bool * Z => fst (fst c)) (ls_cc s),
+   option_map (fun c : Z * bool * Z => fst (fst c)) (ls_bounds s)).
+
+Definition obs5_eqb (a b : string * Z * Z * option Z * option Z) : bool :=
+  let '(c1, x1, r1, cc1, b1) := a in
+  let '(c2, x2, r2, cc2, b2) := b in
+  String.eqb c1 c2 && (x1 =? x2) && (r1 =? r2) && option_eqb Z.eqb cc1 cc2 && option_eqb Z.eqb b1 b2.
+
+Definition flags (c : Z * bool * Z) : bool * Z := (snd (fst c), snd c).
+Definition flags_eqb (a b : bool * Z) : bool := Bool.eqb (fst a) (fst b) && (snd a =? snd b).
+
+(* intent: per location, the flags of the domain topology and of the cell connectivity *)
+Definition intent_ok (s : option loc_summary) (i : option ((bool * Z) * option (bool * Z))) : bool :=
+  match s, i with
+  | Some s, Some (dtf, ccf) =>
+    flags_eqb (flags (ls_dt s)) dtf && option_eqb flags_eqb (option_map flags (ls_cc s)) ccf
+  | _, None => true
+  | None, Some _ => false
+  end.
+
+Fixpoint zip3 (ms : list (option loc_summary)) (ds : list bool) (os : list loc_obs) : bool :=
+  match ms, ds, os with
+  | [], [], [] => true
+  | m :: ms', d :: ds', o :: os' =>
+    (if d then match m, o with
+               | Some s, Some x => obs5_eqb (summary_obs s) x
+               | None, None => true
+               | _, _ => false
+               end
+     else true) && zip3 ms' ds' os'
+  | _, _, _ => false
+  end.
+
+Fixpoint all2 {A B} (f : A -> B -> bool) (l1 : list A) (l2 : list B) : bool :=
+  match l1, l2 with
+  | [], [] => true
+  | x :: r1, y :: r2 => f x y && all2 f r1 r2
+  | _, _ => false
+  end.
+
+Definition check_mesh
+  (c : meshmeta * list bool * result (list loc_obs) * list (option ((bool * Z) * option (bool * Z)))) : bool :=
+  let '(m, data_on, obs, intent) := c in
+  match parse_mesh m, obs with
+  | Err _, Err _ => true
+  | Ok None, Err _ => true
+  | Ok None, Ok l => forallb (fun o : loc_obs => match o with None => true | Some _ => false end) l
+  | Ok (Some ls), Ok l => zip3 ls data_on l && all2 intent_ok ls intent
+  | _, _ => false
+  end.
